@@ -87,7 +87,11 @@ def run(chk):
     from . import legacy_solver
     legacy_solver.derivatives(chk, repo, d, 'R01.7')
     legacy_solver.dispatch(chk, repo, d, 'R01.7')
-    chk.floor('R01.7', 8 + 184 + 8)
+    legacy_solver.love(chk, repo, d, 'R01.7')
+    # ---- R01.8 the propagator-matrix solver of the same package (incompressible static solid shells)
+    legacy_solver.fundamental(chk, repo, 'R01.8', chk.seed, chk.tier)
+    chk.floor('R01.8', 13)
+    chk.floor('R01.7', 8 + 184 + 8 + 1)
     # ---- R01.3 dispatch agreement
     dispatch(chk, repo, mo, mats)
     # ---- R01.5 Love extraction
